@@ -191,17 +191,18 @@ def build(src):
     add("fv_push_back", r"constexpr size_type push_back\(const_reference value\)", "size_t fv_push_back(%s, elem value)" % sfv, dflt="0")
     add("fv_push_back_range", r"constexpr void push_back\(Iter start, Iter end\)", "void fv_push_back_range(%s, const elem *start, const elem *end)" % sfv)
     add("fv_pop_back", r"constexpr void pop_back\(\)", "void fv_pop_back(%s)" % sfv)
+    PI = P + ["C20"]   # the iterator accessors also serve C20 (enumerate / reverse over a fixed_vector)
     for n in ["begin", "end"]:
-        add("fv_" + n, r"constexpr iterator %s\(\) noexcept" % n, "elem *fv_%s(%s)" % (n, sfv), dflt="0")
-        add("fv_%s_c" % n, r"constexpr const_iterator %s\(\) const noexcept" % n, "const elem *fv_%s_c(%s)" % (n, csfv), dflt="0")
-        add("fv_c" + n, r"constexpr const_iterator c%s\(\) const noexcept" % n, "const elem *fv_c%s(%s)" % (n, csfv), dflt="0")
+        add("fv_" + n, r"constexpr iterator %s\(\) noexcept" % n, "elem *fv_%s(%s)" % (n, sfv), dflt="0", props=PI)
+        add("fv_%s_c" % n, r"constexpr const_iterator %s\(\) const noexcept" % n, "const elem *fv_%s_c(%s)" % (n, csfv), dflt="0", props=PI)
+        add("fv_c" + n, r"constexpr const_iterator c%s\(\) const noexcept" % n, "const elem *fv_c%s(%s)" % (n, csfv), dflt="0", props=PI)
     REV0 = "(struct nitro_rev){0}"
     for n in ["rbegin", "rend"]:
         # the declared return type decides the iteration direction: it is part of the signature pattern
-        add("fv_" + n, r"constexpr reverse_iterator %s\(\) noexcept" % n, "struct nitro_rev fv_%s(%s)" % (n, sfv), dflt=REV0)
-        add("fv_%s_c" % n, r"constexpr const_reverse_iterator %s\(\) const noexcept" % n, "struct nitro_rev fv_%s_c(%s)" % (n, csfv), dflt=REV0,
+        add("fv_" + n, r"constexpr reverse_iterator %s\(\) noexcept" % n, "struct nitro_rev fv_%s(%s)" % (n, sfv), dflt=REV0, props=PI)
+        add("fv_%s_c" % n, r"constexpr const_reverse_iterator %s\(\) const noexcept" % n, "struct nitro_rev fv_%s_c(%s)" % (n, csfv), dflt=REV0, props=PI,
             rules=[Rule("D6.const-overload", r"\b(begin|end)\(\)", r"fv_\1_c(self)")])
-        add("fv_c" + n, r"constexpr const_reverse_iterator c%s\(\) const noexcept" % n, "struct nitro_rev fv_c%s(%s)" % (n, csfv), dflt=REV0,
+        add("fv_c" + n, r"constexpr const_reverse_iterator c%s\(\) const noexcept" % n, "struct nitro_rev fv_c%s(%s)" % (n, csfv), dflt=REV0, props=PI,
             rules=[Rule("D6.const-overload", r"\b(cbegin|cend)\(\)", r"fv_\1(self)")])
     add("fv_erase", r"constexpr void erase\(iterator pos\)", "void fv_erase(%s, elem *pos)" % sfv)
     add("fv_data", r"constexpr pointer data\(\) noexcept", "elem *fv_data(%s)" % sfv, dflt="0")
@@ -223,9 +224,9 @@ def build(src):
         "std::initializer_list / std::array argument seen as {pointer, length}",
     ]
     u.lemmas = [
-        Lemma("lemma_fv_forward_iteration", P, replace=["fv_begin", "fv_end"],
+        Lemma("lemma_fv_forward_iteration", P + ["C20"], replace=["fv_begin", "fv_end"],
               note="for (it = begin(); it != end(); ++it) visits data_[0..size) in order"),
-        Lemma("lemma_fv_reverse_iteration", P, replace=["fv_rbegin", "fv_rend"],
+        Lemma("lemma_fv_reverse_iteration", P + ["C20"], replace=["fv_rbegin", "fv_rend"],
               note="for (it = rbegin(); it != rend(); ++it) visits data_[size-1..0]"),
         Lemma("lemma_fv_history", P,
               replace=["fv_push_back", "fv_pop_back", "fv_erase", "fv_emplace", "fv_emplace_back", "fv_at",
